@@ -1317,6 +1317,9 @@ SyntaxVisitor::Action TypeChecker::visitArraySubscriptExpression(
 SyntaxVisitor::Action TypeChecker::visitTypeTraitExpression(
         const TypeTraitExpressionSyntax* node)
 {
+    if (!node->tyReference())
+        return typeCheckError(node);
+
     switch (node->tyReference()->kind()) {
         case SyntaxKind::ExpressionAsTypeReference: {
             auto exprAsTy = node->tyReference()->asExpressionAsTypeReference();
